@@ -98,7 +98,18 @@ def handle(c):
     genome, anno, *_ = common.load_references(args, load_genome=True, load_canonical_peptides=False)
     out = {'lib': [], 'valid': []}
     gseqs = {}
+    # the reader may yield fewer records than the table has rows: align by row identity (the name column carries the row's
+    # tag; verbatim repeats share it), rows the reader did not yield are reported as missing
+    MISSING = {'__missing__': True}
+    rows = c['rows']
+    k = 0
     for rec in CIRCexplorerParser.parse(table, ce3):
+        while k < len(rows) and rows[k].get('name', 'circular_RNA/1') != rec.name:
+            out['lib'].append(MISSING); out['valid'].append(MISSING)
+            k += 1
+        if k >= len(rows):
+            break
+        k += 1
         try:
             if ce3:
                 out['valid'].append(bool(rec.is_valid(th['reads'], fnum(th.get('fpb')), fnum(th.get('score')))))
@@ -115,6 +126,8 @@ def handle(c):
             out['lib'].append(model_tuple(m, gseqs[gid]))
         except Exception as e:   # noqa
             out['lib'].append(exc_class(e))
+    while len(out['lib']) < len(rows):
+        out['lib'].append(MISSING); out['valid'].append(MISSING)
     if c.get('cli', True):
         del _CAP.msgs[:]
         try:
